@@ -132,7 +132,14 @@ def check_ll(e, Sigma, sm, Y):
     if not np.allclose(got_V, V, atol=1e-10 * max(1, np.abs(V).max())):
         return dict(what='stacked covariance matrix differs from the block-Toeplitz matrix of the supplied covariances', input=inp,
                     signature=dict(op='build_full_covariance_matrix', cond='Tobs<=T' if Tobs <= T else 'Tobs>T'))
-    got = e.log_likelihood(Y, Sigma, sm)
+    sign0, _ = np.linalg.slogdet(V)
+    try:
+        got = e.log_likelihood(Y, Sigma, sm)
+    except Exception as ex:
+        if sign0 <= 0 or np.linalg.eigvalsh(V).min() <= 1e-10 * np.abs(V).max():
+            return None              # the supplied covariances are not a positive definite stacked matrix: refusing is correct
+        return dict(what=f'log_likelihood raised {type(ex).__name__} although the block-Toeplitz covariance matrix of the supplied covariances is positive definite', input=inp,
+                    signature=dict(op='log_likelihood', cond='Tobs<=T' if Tobs <= T else 'Tobs>T', raised=True))
     if not (np.array_equal(S0, Sigma) and np.array_equal(Y0, Y)):
         return dict(what='log_likelihood modified an argument', input=inp, signature=dict(op='log_likelihood', cond='mutates-argument'))
     sign, logdet = np.linalg.slogdet(V)
